@@ -25,6 +25,9 @@ func init() {
 	specFuncs["numout"] = func(env *SpecEnv, a []*Value) *Value {
 		return &Value{T: tInt, L: []*Term{UF("rt_NumOut", SBV(64), a[0].One())}}
 	}
+	specFuncs["assignable"] = func(env *SpecEnv, a []*Value) *Value {
+		return &Value{T: tBool, L: []*Term{UF("rt_AssignableTo_00", SBool, a[0].One(), a[1].One())}}
+	}
 	specFuncs["impl"] = func(env *SpecEnv, a []*Value) *Value {
 		return &Value{T: tBool, L: []*Term{UF("rt_Implements_00", SBool, a[0].One(), a[1].One())}}
 	}
